@@ -575,12 +575,17 @@ func vfRunCoA(f []string) string {
 	}
 	defer ssock.Close()
 	sentinelKey := clients[0].key
-	mkSentinel := func() []byte { // carries a current Event-Timestamp: valid whether or not the attribute is required
-		sreq := []byte{40, 1, 0, 37}
+	sentinelNo := uint32(0)
+	mkSentinel := func() []byte { // current Event-Timestamp (valid whether or not required); never byte-identical twice
+		sentinelNo++
+		sreq := []byte{40, byte(sentinelNo), 0, 43}
 		sattr := append([]byte{44, 11}, []byte("~sentinel")...)
 		ts := make([]byte, 4)
 		binary.BigEndian.PutUint32(ts, uint32(time.Now().Unix()))
 		sattr = append(append(sattr, 55, 6), ts...)
+		ctr := make([]byte, 4)
+		binary.BigEndian.PutUint32(ctr, sentinelNo)
+		sattr = append(append(sattr, 33, 6), ctr...)
 		sreq = append(sreq, vfMD5(sreq, vfZero16, sattr, clients[0].secret)...)
 		return append(sreq, sattr...)
 	}
@@ -589,6 +594,7 @@ func vfRunCoA(f []string) string {
 	p := 6
 	out := []string{}
 	buf := make([]byte, 8192)
+	var sentDgs [][]byte
 	for k := 0; k < n; k++ {
 		kv := map[string]string{}
 		for p < len(f) && f[p] != "|" {
@@ -609,7 +615,16 @@ func vfRunCoA(f []string) string {
 		var outcome string
 		var evs []string
 		for attempt := 0; ; attempt++ {
-			dg, now = vfBuildCoA(kv)
+			if d, ok := kv["dup"]; ok { // byte-identical copy of an earlier datagram of this case
+				k, _ := strconv.Atoi(d)
+				now = time.Now().Unix()
+				dg = nil
+				if k < len(sentDgs) {
+					dg = sentDgs[k]
+				}
+			} else {
+				dg, now = vfBuildCoA(kv)
+			}
 			before = vfSnap(c.stats)
 			sock.WriteToUDP(dg, dst)
 			// Completion is detected without timing: a correctly signed Disconnect-Request for the session
@@ -655,6 +670,7 @@ func vfRunCoA(f []string) string {
 			}
 		}
 		sock.Close()
+		sentDgs = append(sentDgs, dg)
 		line := fmt.Sprintf("now=%d dg=%s %s st=%s", now, vfHex(dg), outcome, vfStatDelta(before, after, hosts))
 		if outcome == "reply" {
 			ra, ma := "-", "-"
